@@ -30,18 +30,31 @@ func genRetry(r *sx.Rng) sx.Tree {
 	natt := int(r.Range(2, 3))
 	atts := []sx.Tree{}
 	succeeded := false
+	advance := r.Chance(65)
 	for k := 0; k < natt; k++ {
 		a := Gen(r.Fork(), 1000, "")
 		com, wms, af := base.At(2), base.At(3), sx.B(false)
 		_ = a
+		if k > 0 && advance {
+			// records keep arriving between the attempts (3 s apart): the high watermarks have moved on
+			w := []sx.Tree{}
+			for _, x := range base.At(3).Kids {
+				if x.Len() == 2 {
+					w = append(w, sx.Ints(x.At(0).Int(), x.At(1).Int()+int64(k)*r.Range(1, 900)))
+				} else {
+					w = append(w, x)
+				}
+			}
+			wms = sx.T(w...)
+		}
 		last := k == natt-1
 		if !last || r.Chance(30) {
 			switch r.Intn(3) {
 			case 0:
 				com = sx.T()
 			case 1:
-				if base.At(3).Len() > 0 {
-					w := append([]sx.Tree(nil), base.At(3).Kids...)
+				if wms.Len() > 0 {
+					w := append([]sx.Tree(nil), wms.Kids...)
 					w[r.Intn(len(w))] = sx.T()
 					wms = sx.T(w...)
 				} else {
